@@ -25,13 +25,13 @@ Print Assumptions c04_jwt_iff.
 Theorem c04_jwt_history : forall jwt_parse, lib_contract jwt_parse ->
   forall cb secret prev (reqs : list (Z * N)) p,
   map j_ran (snd (run_jwt jwt_parse cb p secret prev reqs)) =
-  map (fun nt => jwt_admit (jwt_ok jwt_parse) secret prev (snd nt)) reqs /\
+  map (fun nt => jwt_accept (jwt_ok jwt_parse) secret prev (snd nt)) reqs /\
   reset_time (fst (run_jwt jwt_parse cb p secret prev reqs)) = reset_time p /\
   reset_dur (fst (run_jwt jwt_parse cb p secret prev reqs)) = reset_dur p.
 Proof. exact jwt_history. Qed.
 Print Assumptions c04_jwt_history.
 
-(* an admitted request answers 200 from the handler, whose context holds exactly the token's
+(* an accepted request answers 200 from the handler, whose context holds exactly the token's
    non-registered claims *)
 Theorem c04_claims_visible : forall jwt_parse cb now p secret prev tok,
   j_ran (snd (authorize jwt_parse cb now p secret prev tok)) = true ->
@@ -57,7 +57,7 @@ Print Assumptions c04_jwt_401_no_handler.
 
 (* ---------------------------------------------------------------- (SIG) time window *)
 
-(* the int64 test `seconds+tol < now || now+tol < seconds`: wrap-around never admits *)
+(* the int64 test `seconds+tol < now || now+tol < seconds`: wrap-around never accepts *)
 Theorem c04_time_window_no_wrap : forall tol now ts,
   0 <= tol < 2^62 -> 0 <= now < 2^62 -> - 2^63 <= ts < 2^63 ->
   (wrap64 (ts + tol) <? now) || (wrap64 (now + tol) <? ts) = false ->
@@ -112,21 +112,21 @@ Theorem c04_sig_strict_iff : forall decryptors rsa_dec b64_dec hmac_b64 sha_hex 
   0 <= tol -> 0 <= now -> now + 2 * tol < 2^63 -> method_checked r = true ->
   (s_ran (content_security_gate decryptors rsa_dec b64_dec hmac_b64 sha_hex url_parse body_dec_ok true tol now r) = true <->
    exists h, parse_content_security decryptors rsa_dec b64_dec r = inl h /\
-             sig_admit hmac_b64 sha_hex tol now (q_of url_parse h r) = true /\
+             sig_accept hmac_b64 sha_hex tol now (q_of url_parse h r) = true /\
              ((0 <? r_clen r) && (h_ctype h =? encryption_type) = true -> body_dec_ok (h_key h) r = true)).
 Proof. exact sig_strict_spec. Qed.
 Print Assumptions c04_sig_strict_iff.
 
-(* in the full range 0 <= tol, now < 2^62 a passing verification still implies the Spec's admission *)
+(* in the full range 0 <= tol, now < 2^62 a passing verification still implies the Spec's acceptance *)
 Theorem c04_sig_sound : forall hmac_b64 sha_hex url_parse tol now r h,
   0 <= tol < 2^62 -> 0 <= now < 2^62 ->
   verify_signature hmac_b64 sha_hex url_parse tol now r h = code_pass ->
-  sig_admit hmac_b64 sha_hex tol now (q_of url_parse h r) = true.
+  sig_accept hmac_b64 sha_hex tol now (q_of url_parse h r) = true.
 Proof. exact verify_sound. Qed.
 Print Assumptions c04_sig_sound.
 
 (* under HMAC / SHA-256 injectivity: altering exactly one of timestamp, method, effective path,
-   effective query, body of an admitted request (same key, same signature) yields 403 and the handler
+   effective query, body of an accepted request (same key, same signature) yields 403 and the handler
    does not run -- provided the method is still a guarded one (see c04_other_methods_pass) *)
 Theorem c04_tamper_rejected : forall decryptors rsa_dec b64_dec hmac_b64 sha_hex url_parse body_dec_ok,
   (forall k c1 c2 : bytes, hmac_b64 k c1 = hmac_b64 k c2 -> c1 = c2) ->
@@ -206,16 +206,16 @@ Theorem c04_rpc_table : forall strict cache store,
 Proof. exact rpc_table. Qed.
 Print Assumptions c04_rpc_table.
 
-(* the same against the Spec: admitted iff rpc_admit on the server's (cached) view of the store *)
+(* the same against the Spec: accepted iff rpc_accept on the server's (cached) view of the store *)
 Theorem c04_rpc_refines : forall strict cache store md,
   match md_creds md with
   | None => authenticate strict cache store md = (cache, rpc_unauthenticated) /\
-            rpc_admit strict false StNone 0%N = false
+            rpc_accept strict false StNone 0%N = false
   | Some (app, token) =>
       let st := to_stored (store app) in
       fst (authenticate strict cache store md) = rpc_memo cache st app /\
       (snd (authenticate strict cache store md) = rpc_ok <->
-       rpc_admit strict true (rpc_view cache st app) token = true) /\
+       rpc_accept strict true (rpc_view cache st app) token = true) /\
       (snd (authenticate strict cache store md) <> rpc_ok ->
        snd (authenticate strict cache store md) =
          match rpc_view cache st app with StTok _ => rpc_unauthenticated | _ => rpc_internal end)
@@ -223,7 +223,7 @@ Theorem c04_rpc_refines : forall strict cache store md,
 Proof. exact rpc_refines. Qed.
 Print Assumptions c04_rpc_refines.
 
-(* histories: in strict mode a call is admitted only with a token the store has held for its app
+(* histories: in strict mode a call is accepted only with a token the store has held for its app
    now or at an earlier fetch of this history *)
 Theorem c04_rpc_strict_sound : forall steps cache past i store md app token,
   cache_sound cache past ->
@@ -244,7 +244,7 @@ Proof.
   intro H; inversion H; auto.
 Qed.
 
-(* a token signed with the previous secret is admitted whatever the counters say, and only uid is visible *)
+(* a token signed with the previous secret is accepted whatever the counters say, and only uid is visible *)
 Example c04_jwt_nonvacuous :
   let p := mkp [(1%N, 5%N); (2%N, 3%N)] 0 100 in
   snd (authorize ex_jwt CbNone 50 p 1%N 2%N 1%N) = mkj 200 true [("uid", 7%N)]%string false /\
@@ -252,7 +252,7 @@ Example c04_jwt_nonvacuous :
   snd (authorize ex_jwt CbNone 50 p 1%N 0%N 1%N) = mkj 401 false [] false.
 Proof. vm_compute. repeat split; reflexivity. Qed.
 
-(* injective stand-ins for HMAC and SHA-256 exist, and with them a request is admitted and its tampering refused *)
+(* injective stand-ins for HMAC and SHA-256 exist, and with them a request is accepted and its tampering refused *)
 Definition ex_hmac (k c : bytes) : bytes := k ++ c.
 Definition ex_sha (b : bytes) : bytes := b.
 
